@@ -371,8 +371,9 @@ def bounded_documents(ctx, b):
         ends = []
         body = ""
         other = []
+        twins = rng.random() < 0.3        # two paragraphs of the language in every sync: two cues with the same times
         for i, s in enumerate(starts):
-            body += f'<SYNC start="{s}"><P class="ENCC">en {i}</P>'
+            body += f'<SYNC start="{s}"><P class="ENCC">en {i}</P>' + (f'<P class="ENCC">EN {i}</P>' if twins else "")
             if not own_syncs and rng.random() < 0.5:
                 body += f'<P class="FRCC">fr {i}</P>'
             body += "</SYNC>"
@@ -398,7 +399,7 @@ def bounded_documents(ctx, b):
         cs = reader(SAMIReader).read(doc)
         caps = cs.get_captions(la)
         got = [(c_.start, c_.end) for c_ in caps]
-        exp = [(s * 1000, e * 1000) for s, e in zip(starts, ends)]
+        exp = [(s * 1000, e * 1000) for s, e in zip(starts, ends) for _ in range(2 if twins else 1)]
         ok = got == exp
         if own_syncs and other:
             got_b = [(c_.start, c_.end) for c_ in cs.get_captions(lb)]
